@@ -127,6 +127,13 @@ mod simd_impl {
     }
 }
 
+/// Verification hooks: re-exports of the two edge kernels (compiled only with `--cfg h263_rs_verif`).
+#[cfg(h263_rs_verif)]
+pub mod verif_hooks {
+    pub use super::scalar_impl::process;
+    pub use super::simd_impl::process_simd;
+}
+
 use itertools::izip;
 use scalar_impl::process;
 use simd_impl::process_simd;
